@@ -306,14 +306,14 @@ class World:
         for name, (fn, pn) in c11fns.LOCAL.items():
             qn = fn.fn_reference().qualified_name
             self.local[qn] = list(pn)
-            if "::" not in qn:
+            if "::" not in qn.split("#", 1)[0]:        # (a version string may itself contain '::')
                 self.local["other::" + qn] = list(pn)
         for fn in (c11fns.leaf, c11fns.mid, c11fns.top, c11fns.keyed, c11fns.failing):
             r = fn.fn_reference()
             self.local[r.qualified_name] = list(r.parameter_names)
         self.external = [("nomod.sub:fn#v1", ["a", "b", "k"]), ("cl::nomod:fn.x#2", ["p"]), ("c11fns:target#OTHER", ["x", "y"]),
                          ("c11fns:nope#1", []), ("c11fns:REC#1", ["r", "s", "t", "u"]), ("ext.é:fün#1#2", ["α", "b"]),
-                         ("x.y:z#", ["q"])]
+                         ("x.y:z#", ["q"]), ("nomod:fn#lib::rel:7", ["p"]), ("cl::nomod:fn#a::b", ["p"])]
 
     def cb_line(self):
         return "cb " + " ".join(hx(q) + " ( " + "".join(hx(n) + " " for n in pn) + ")" for q, pn in sorted(self.local.items()))
@@ -325,7 +325,7 @@ class World:
         return [
             None, True, False, 0, 1, -1, 2 ** 70, -(2 ** 63), 1.0, 0.0, -0.0, 1.5, 1e16, 1e22, 1e-7, float("nan"), float("inf"),
             float("-inf"), 0.1 + 0.2, 5e-324, 1.7976931348623157e308, "", "1", "true", "a b", "é", "quote\"back\\slash", "tab\tnl\n",
-            "\x00\x1f\x7f", "😀", "\u2028", "#", "2020-01-01", "+00:00", "Z",
+            "\x00\x1f\x7f", "😀", "\u2028", "#", "cafe\u0301", "Zu\u0308rich", "10 \u212b", "\u1112\u1161\u11ab", "\ufb01", "e\u0301\u0323", "2020-01-01", "+00:00", "Z",
             datetime.date(2020, 1, 1), datetime.date(999, 12, 31), datetime.date(1, 1, 1), datetime.date(9999, 12, 31),
             datetime.datetime(2020, 1, 1), datetime.datetime(2020, 1, 1, 12, 30, 15, 123456), datetime.datetime(2020, 1, 1, tzinfo=tz.utc),
             datetime.datetime(1, 1, 1, 0, 0, 0, 1), datetime.datetime(999, 2, 3, 4, 5, 6, tzinfo=tz.utc),
